@@ -10,7 +10,7 @@ import math
 import z3
 
 from pyvc import sym, instrument, vc as vcm
-from pyvc.arr import SymArray
+from pyvc.arr import SymArray, check_same
 from pyvc.harness import Unit
 from pyvc.models.npmodel import NP, BUILTINS
 from pyvc.sym import SB, SI, SR, check, assume, explore, FreshInt
@@ -196,12 +196,12 @@ def run_edge_geometry(mutate=None):
         dy = sites.at(edges.at(e, SI(1)), SI(1)) - sites.at(edges.at(e, SI(0)), SI(1))
         ln = SR.lift(em.edge_lengths.at(e))
         check("C07.edge_geometry.length_is_euclidean_norm", z3.And(ln.e >= 0, (ln * ln).e == (dx * dx + dy * dy).e), fallback_extra=sym.congruence_axioms)
-        check("C07.edge_geometry.edges_and_boundary_flags_from_the_triangulation", z3.BoolVal(calls.get("get_edges") is el and em.edges is edges))
+        check_same("C07.edge_geometry.edges_and_boundary_flags_from_the_triangulation", [(calls.get("get_edges"), el), (em.edges, edges)])
         check("C07.edge_geometry.boundary_edge_indices_are_the_flagged_edges", z3.BoolVal(getattr(em.boundary_edge_indices, "member", None) is not None)
               if not isinstance(em.boundary_edge_indices, SymArray) else em.boundary_edge_indices.member(e) == isb.at(e).e)
         a = calls.get("dual")
-        check("C07.dual_length.computed_from_edge_centres_elements_circumcentres", z3.BoolVal(a is not None and a[0] is em.centers and a[1] is el and a[2] is dual and a[3] is edges
-                                                                                            and em.dual_edge_lengths is dl))
+        check_same("C07.dual_length.computed_from_edge_centres_elements_circumcentres",
+                   [(a[0], em.centers), (a[1], el), (a[2], dual), (a[3], edges), (em.dual_edge_lengths, dl)] if a is not None else [], also=a is not None)
     obls, n = explore(body)
     return dict(obls=obls, paths=n, sources=[L.info()], consistent=sym.consistent())
 
